@@ -436,7 +436,10 @@ func (k c17) runRender(c *mon.Ctx) {
 	mk := func() token.LnColPos {
 		return token.LnColPos{Pos: token.Pos(r.Intn(500)), Ln: 1 + r.Intn(40), Col: 1 + r.Intn(80)}
 	}
-	msg := []string{"boom", "unsupported operand", "a: b", "line\nbreak", ""}[r.Intn(5)]
+	msgs := []string{"boom", "unsupported operand", "a: b", "line\nbreak", "", "unsupported operand type(s) for %: str and int", "100%", "%d %s %v", "%!", "no pattern %{NOSUCH:x}",
+		"tab\there", "quote \" and \\ backslash", "ünïcödé 世界", "%%", "trailing colon:", "a.p:1:2: looks like a position", "\x00nul", strings.Repeat("long ", 200)}
+	msg := msgs[r.Intn(len(msgs))]
+	files = append(files, "100%.p", "a:b.p", "%s.p")
 	f0 := files[r.Intn(len(files))]
 	p0 := mk()
 	e := errchain.NewErr(f0, p0, msg)
